@@ -57,8 +57,8 @@ func parse(method, target, host string) *http.Request {
 	return r
 }
 
-func gallina(r *http.Request) string {
-	return fmt.Sprintf("(RQ false %s %s %s %s)", emit.Str(r.Method), emit.Str(r.Host), emit.Str(r.URL.EscapedPath()), emit.Str(r.URL.RawQuery))
+func gallina(r *http.Request, tlsOn bool) string {
+	return fmt.Sprintf("(RQ %s %s %s %s %s)", emit.Bool(tlsOn), emit.Str(r.Method), emit.Str(r.Host), emit.Str(r.URL.EscapedPath()), emit.Str(r.URL.RawQuery))
 }
 
 func main() {
@@ -69,95 +69,123 @@ func main() {
 	}
 	r := emit.NewRand(*flagSeed)
 	meta := emit.NewMeta("e2e02", *flagSeed, *flagTier)
-	meta.Rule = "pairs (A,B) of GET requests for variants of one base path (trailing/duplicate slashes, dot segments plain and percent-encoded, %2F, case, separators | ? ; + moved across components, queries) and host letter case, through the real proxy: A stored, then B; the origin echoes the request-target it received; distinct by (A,B); non-trivial = A and B differ"
+	meta.Rule = "pairs (A,B) of GET requests for variants of one base path (trailing/duplicate slashes, dot segments plain and percent-encoded, %2F, case, separators | ? ; + moved across components, queries) and host letter case, through the real proxy, over plain HTTP and inside CONNECT tunnels (where the host is named by the inner Host field only, the tunnel authority being the origin's address): A stored, then B; the origin echoes the request-target it received; distinct by (A,B); non-trivial = A and B differ"
 	w := &emit.Writer{Dir: *flagOut, Prefix: "e2e", ShardSize: 200,
 		Imports:  "From Reservoir Require Import Base.Prelude Model.Key Check.Key Check.KeyE2E.",
 		CaseType: "served_case", CheckFn: "check_served"}
-	env, err := e2elib.Start(e2elib.Options{Backend: "memory", Dir: filepath.Join(*flagOut, "env")})
-	if err != nil {
-		panic(err)
-	}
-	defer os.RemoveAll(filepath.Join(*flagOut, "env"))
-	env.Origin.SetHandler(func(req e2elib.OriginRequest, n int) e2elib.Answer {
-		// a realistic origin: identifies targets up to dot-segments and duplicate slashes, nothing else
-		t, q, hasQ := strings.Cut(req.Target, "?")
-		c := path.Clean(t)
-		if c != "/" && (strings.HasSuffix(t, "/") || strings.HasSuffix(t, "/.") || strings.HasSuffix(t, "/..")) {
-			c += "/"
-		}
-		if hasQ {
-			c += "?" + q
-		}
-		return e2elib.NewAnswer(200, []byte("T="+c), "Cache-Control: max-age=3600")
-	})
-	get := func(target, host string) (body, xcache string, ok bool) {
-		raw := fmt.Sprintf("GET http://%s%s HTTP/1.1\r\nHost: %s\r\n\r\n", host, target, host)
-		resp, err := env.DoPlain([]byte(raw), "GET", 8*time.Second)
-		if err != nil || resp.Status != 200 {
-			return "", "", false
-		}
-		return string(resp.Body), resp.Header.Get("X-Cache"), true
-	}
-	pairs := 260
-	if *flagTier == "thorough" {
-		pairs = 4000
-	}
-	addr := env.Origin.Addr
-	hostUpper := strings.ToUpper(addr) // 127.0.0.1:port has no letters; use localhost form for case tests
-	port := addr[strings.LastIndex(addr, ":")+1:]
-	hosts := []string{"localhost:" + port, "LOCALHOST:" + port, "LocalHost:" + port, addr}
-	_ = hostUpper
-	bases := []string{"/a", "/dir/file", "/x/y/z", "/dir/sub"}
-	n := 0
-	for n < pairs {
-		n++
-		prefix := fmt.Sprintf("/p%d", n)
-		base := prefix + emit.Pick(r, bases)
-		vs := variants(r, base)
-		ta, tb := emit.Pick(r, vs), emit.Pick(r, vs)
-		if r.Chance(30) {
-			ta = base
-		}
-		ha, hb := hosts[0], hosts[0]
-		if r.Chance(25) {
-			hb = emit.Pick(r, hosts)
-		}
-		if strings.Contains(ta, "#") || strings.Contains(tb, "#") { // a fragment is not sent on the wire
-			continue
-		}
-		ra, rb := parse("GET", ta, ha), parse("GET", tb, hb)
-		if ra == nil || rb == nil {
-			continue
-		}
-		bodyA, _, ok := get(ta, ha)
-		if !ok {
-			continue
-		}
-		before := env.Origin.Count()
-		bodyB, _, ok := get(tb, hb)
-		if !ok {
-			continue
-		}
-		contacted := env.Origin.Count() > before
-		shared := !contacted && bodyB == bodyA
-		// what the origin answers when asked for B on its own (fresh prefix so nothing is stored)
-		distinct := false
-		if shared {
-			ta2 := strings.Replace(ta, prefix, prefix+"d", 1)
-			tb2 := strings.Replace(tb, prefix, prefix+"e", 1)
-			b1, _, ok1 := get(ta2, ha)
-			b2, _, ok2 := get(tb2, hb)
-			if ok1 && ok2 {
-				distinct = strings.Replace(b1, prefix+"d", prefix, 1) != strings.Replace(b2, prefix+"e", prefix, 1)
+	for _, tlsOn := range []bool{false, true} {
+		func() {
+			env, err := e2elib.Start(e2elib.Options{Backend: "memory", Dir: filepath.Join(*flagOut, "env"), TLS: tlsOn})
+			if err != nil {
+				panic(err)
 			}
-		}
-		w.Add(fmt.Sprintf("SV %s %s %s %s", gallina(ra), gallina(rb), emit.Bool(shared), emit.Bool(distinct)))
-		meta.Count("shared", emit.Bool(shared))
-		meta.Count("same_target", emit.Bool(ta == tb && ha == hb))
-		meta.Record(ta+"\x00"+ha+"\x00"+tb+"\x00"+hb, ta != tb || ha != hb,
-			map[string]any{"a": ta, "host_a": ha, "b": tb, "host_b": hb, "b_served_from_a_entry": shared, "origin_saw_for_a": bodyA, "b_body": bodyB, "origin_distinguishes": distinct})
+			defer os.RemoveAll(filepath.Join(*flagOut, "env"))
+			env.Origin.SetHandler(func(req e2elib.OriginRequest, n int) e2elib.Answer {
+				// a realistic origin: identifies targets up to dot-segments and duplicate slashes, nothing else
+				t, q, hasQ := strings.Cut(req.Target, "?")
+				c := path.Clean(t)
+				if c != "/" && (strings.HasSuffix(t, "/") || strings.HasSuffix(t, "/.") || strings.HasSuffix(t, "/..")) {
+					c += "/"
+				}
+				if hasQ {
+					c += "?" + q
+				}
+				return e2elib.NewAnswer(200, []byte("T="+c), "Cache-Control: max-age=3600")
+			})
+			get := func(target, host string) (body, xcache string, ok bool) {
+				var resp *e2elib.Response
+				var err error
+				if tlsOn {
+					// inside a CONNECT tunnel to the origin's address; the request names its host in the Host field only
+					c, _, derr := env.DialTunnel(env.Origin.Addr, "127.0.0.1", 8*time.Second)
+					if derr != nil {
+						return "", "", false
+					}
+					c.Send([]byte(fmt.Sprintf("GET %s HTTP/1.1\r\nHost: %s\r\n\r\n", target, host)), 5*time.Second)
+					resp, err = c.Read("GET", 8*time.Second)
+					c.Close()
+				} else {
+					raw := fmt.Sprintf("GET http://%s%s HTTP/1.1\r\nHost: %s\r\n\r\n", host, target, host)
+					resp, err = env.DoPlain([]byte(raw), "GET", 8*time.Second)
+				}
+				if err != nil || resp.Status != 200 {
+					return "", "", false
+				}
+				return string(resp.Body), resp.Header.Get("X-Cache"), true
+			}
+			pairs := 200
+			if *flagTier == "thorough" {
+				pairs = 3000
+			}
+			if tlsOn {
+				pairs /= 3
+			}
+			addr := env.Origin.Addr
+			hostUpper := strings.ToUpper(addr) // 127.0.0.1:port has no letters; use localhost form for case tests
+			port := addr[strings.LastIndex(addr, ":")+1:]
+			hosts := []string{"localhost:" + port, "LOCALHOST:" + port, "LocalHost:" + port, addr}
+			_ = hostUpper
+			bases := []string{"/a", "/dir/file", "/x/y/z", "/dir/sub"}
+			n := 0
+			for n < pairs {
+				n++
+				prefix := fmt.Sprintf("/p%v%d", tlsOn, n)
+				base := prefix + emit.Pick(r, bases)
+				vs := variants(r, base)
+				ta, tb := emit.Pick(r, vs), emit.Pick(r, vs)
+				if r.Chance(30) {
+					ta = base
+				}
+				ha, hb := hosts[0], hosts[0]
+				if r.Chance(25) {
+					hb = emit.Pick(r, hosts)
+				}
+				if tlsOn && r.Chance(50) {
+					// the host the TUNNEL was opened to (another name of the same server): a different resource for the cache
+					hb = addr
+					if r.Bool() {
+						tb = ta
+					}
+				}
+				if strings.Contains(ta, "#") || strings.Contains(tb, "#") { // a fragment is not sent on the wire
+					continue
+				}
+				ra, rb := parse("GET", ta, ha), parse("GET", tb, hb)
+				if ra == nil || rb == nil {
+					continue
+				}
+				bodyA, _, ok := get(ta, ha)
+				if !ok {
+					continue
+				}
+				before := env.Origin.Count()
+				bodyB, _, ok := get(tb, hb)
+				if !ok {
+					continue
+				}
+				contacted := env.Origin.Count() > before
+				shared := !contacted && bodyB == bodyA
+				// what the origin answers when asked for B on its own (fresh prefix so nothing is stored)
+				distinct := false
+				if shared {
+					ta2 := strings.Replace(ta, prefix, prefix+"d", 1)
+					tb2 := strings.Replace(tb, prefix, prefix+"e", 1)
+					b1, _, ok1 := get(ta2, ha)
+					b2, _, ok2 := get(tb2, hb)
+					if ok1 && ok2 {
+						distinct = strings.Replace(b1, prefix+"d", prefix, 1) != strings.Replace(b2, prefix+"e", prefix, 1)
+					}
+				}
+				w.Add(fmt.Sprintf("SV %s %s %s %s", gallina(ra, tlsOn), gallina(rb, tlsOn), emit.Bool(shared), emit.Bool(distinct)))
+				meta.Count("shared", emit.Bool(shared))
+				meta.Count("transport", map[bool]string{false: "plain", true: "connect"}[tlsOn])
+				meta.Count("same_target", emit.Bool(ta == tb && ha == hb))
+				meta.Record(ta+"\x00"+ha+"\x00"+tb+"\x00"+hb, ta != tb || ha != hb,
+					map[string]any{"a": ta, "host_a": ha, "b": tb, "host_b": hb, "b_served_from_a_entry": shared, "origin_saw_for_a": bodyA, "b_body": bodyB, "origin_distinguishes": distinct})
+			}
+			env.Close()
+		}()
 	}
-	env.Close()
 	w.Flush()
 	meta.Write(*flagOut, w.Files)
 	fmt.Printf("e2e02: %d pairs in %d files\n", w.Total, len(w.Files))
